@@ -23,7 +23,12 @@ SerialClass Serial;
 TwoWire Wire;
 int Servo::next = 0;
 int MockLcdBase::next = 0;
-static void dump_lcds() { for (auto *l : MockLcdBase::all()) l->dump("marker"); }
+// array new/delete are what the emitted list helpers use: count live array blocks
+static long g_live_arrays = 0;
+void *operator new[](size_t n) { ++g_live_arrays; void *p = malloc(n ? n : 1); if (!p) abort(); return p; }
+void operator delete[](void *p) noexcept { if (p) { --g_live_arrays; free(p); } }
+void operator delete[](void *p, size_t) noexcept { if (p) { --g_live_arrays; free(p); } }
+static void dump_lcds() { for (auto *l : MockLcdBase::all()) l->dump("marker"); mock::ev("heap %ld", g_live_arrays); }
 namespace mock { void (*on_marker)() = dump_lcds; }
 
 void pinMode(int pin, int mode) { mock::ev("pm %d %d", pin, mode); }
